@@ -722,6 +722,20 @@ func (c *Ctx) c20Encode(s *SuiteStat, g *Gen, sx *Sx, idx int) {
 		c.violate(Violation{Suite: s.Name, Kind: "property", Index: idx, Class: "encode-nondeterministic", Desc: "repeated Encode gives different bytes", Input: line, Expected: e1.val, Actual: hx(keep)})
 		return
 	}
+	// the message is then modified IN PLACE (one field of one payload object) and encoded again: Encode is a function of
+	// the message as it is now (nothing remembered from the earlier encodings of the same objects)
+	if what := mutateInPlace(g, m); what != "" {
+		now := renderMsg(m)
+		if fresh, err := ParseSx(now.String()); err == nil {
+			ea, eb := encodeMsgRes(m), encodeMsgRes(buildMsg(fresh))
+			if ea != eb {
+				c.violate(Violation{Suite: s.Name, Kind: "property", Index: idx, Class: "encode-remembers-earlier-state",
+					Desc:  "after " + what + " was changed in place on a message that had been encoded before, Encode differs from Encode of a new message with the same fields (replay: re-run of the suite with this seed)",
+					Input: "enc msg " + now.String(), Expected: clip(eb.String()), Actual: clip(ea.String())})
+				return
+			}
+		}
+	}
 	// protect
 	if idx%4 == 0 {
 		st := allSuites()[idx/4%9]
